@@ -21,7 +21,7 @@ CHECKS["C07"] = dict(
         "tombstones, the empty-dict-is-a-leaf rule) with machine-checked theorems about it (Properties_C07.v). Tied to the code on every run by lockstep "
         "correspondence on generated histories (keys added/removed, leaf<->dict, {} leaves, in-place mutation of previously reported objects, None) through a real "
         "worker-side/main-side pair with pickling, and end-to-end through a real multi-worker loader; direct oracle: checkpoint entry == what the worker reported "
-        "after its last yielded batch.",
+        "after its last yielded batch. End-to-end cases include fetches that fail after mutating the state (consumer continues).",
    design="DESIGN.md 4 C07",
    note="Trusted: Coq kernel + vm_compute; leaf values abstracted to tokens compared by value; pickle round-trip as the queue; the Python harness and its encoding of trees.",
    technique="Coq proof over hand-written Gallina model + lockstep correspondence (vm_compute) + direct oracle")
@@ -54,7 +54,7 @@ CHECKS["C08"] = dict(
    text="Gallina node/Loader model: state_dict() is observationally pure (theorems in Properties_C08.v); values in the model are immutable by construction, so the "
         "no-write-through half is decided on the implementation: every state dict is pickled at birth and deep-compared after further iteration, after loading it (repeatedly, "
         "the same object) and iterating; the same dict loaded twice must give the same continuation; a run with extra state_dict() calls after every op must yield the same stream. "
-        "Lockstep correspondence of the base history with the model.",
+        "Lockstep correspondence of the base history with the model. Histories include state_dict() with a load pending while the old iterator is still consumed, and worker states holding a large constant-shape tensor.",
    design="DESIGN.md 4 C08",
    note="Trusted: Coq kernel + vm_compute; harness iterables copy on load (user-code aliasing out of scope); aliasing itself is not representable in the functional model and is checked by the oracle only.",
    technique="Coq proof (purity) over hand-written Gallina model + lockstep correspondence + pickled deep-compare oracle")
@@ -63,7 +63,7 @@ CHECKS["C14"] = dict(
         "the batched choice stream with its (generator snapshot, offset) state, epoch handling) with theorems in Properties_C14.v quantified over ALL choice streams. "
         "Correspondence: real sampler with 1-4 sources (lengths 0-7), random weights/seeds/ranks/world sizes, every criterion, histories with checkpoints and "
         "resumes incl. across the 1000-draw batch boundary; the model is fed the reference multinomial stream the harness recomputes from (seed, rank, world_size, epoch, weights); "
-        "every item (tagged with its source), StopIteration and state dict compared; direct oracle for per-source order and the stop-criterion characterisations.",
+        "every item (tagged with its source), StopIteration and state dict compared; direct oracle for per-source order and the stop-criterion characterisations. A third of the cases run with RANK/WORLD_SIZE set in the process environment (explicit arguments, rank 0 included, must win).",
    design="DESIGN.md 4 C14",
    note="Trusted: Coq kernel + vm_compute; torch.multinomial/Generator determinism; the harness's re-derivation of the rank/epoch seed is the specification of the seeding clause; "
         "known finding D12 (empty source under a cycling criterion) is matched specifically.",
